@@ -4,18 +4,21 @@
 #include "dfs_types.h"
 static void mon_read_block(struct DataAccess *obj, unsigned long lba) { (void)obj; (void)lba; }
 static void mon_read_result(struct DataAccess *obj, _Bool ok) { (void)obj; (void)ok; }
-/* std::ofstream model: open may fail; every write may fail (failbit/badbit sticky); buffered data is only known to be
-   accepted once close() has returned with the stream still good */
-static struct { _Bool is_open, bad, closed; unsigned long bytes; } ofs_obj;
+/* std::ofstream model: open may fail (failbit); every write may fail (badbit); close() may fail (failbit: [fstream] "calls
+   setstate(failbit)" when the filebuf's close -- the final flush -- fails); the bits are sticky; buffered data is only
+   known to be accepted once close() has returned with the stream still good.  `bad` = failbit or badbit (what operator!
+   and fail() test); `badbit` = what bad() tests */
+static struct { _Bool is_open, bad, badbit, closed; unsigned long bytes; } ofs_obj;
 #define ofs_t __typeof__(ofs_obj)
-static void ofs_open(ofs_t *o) { o->closed = 0; o->bytes = 0; if (nondet_bool()) { o->is_open = 0; o->bad = 1; } else { o->is_open = 1; o->bad = 0; } }
+static void ofs_open(ofs_t *o) { o->closed = 0; o->bytes = 0; o->badbit = 0; if (nondet_bool()) { o->is_open = 0; o->bad = 1; } else { o->is_open = 1; o->bad = 0; } }
 static _Bool ofs_ok(ofs_t *o) { return !o->bad; }
+static _Bool ofs_badbit(ofs_t *o) { return o->badbit; }
 static void ofs_write_n(ofs_t *o, const byte *p, size_t n)
 {
   (void)p;
   __CPROVER_assert(!o->closed, "write after close");
   if (o->bad) return;
-  if (nondet_bool()) { o->bad = 1; return; }
+  if (nondet_bool()) { o->bad = 1; o->badbit = 1; return; }
   o->bytes += n;
 }
 static void ofs_close(ofs_t *o) { o->closed = 1; if (!o->bad && nondet_bool()) o->bad = 1;  /* the final flush may fail */ }
@@ -25,7 +28,7 @@ static byte h_chunk[256];
    is enforced under C01); with the visitor's contract below, it returns true iff no write failed */
 static _Bool visit_body_model(void)
 {
-  if (nondet_bool()) ofs_obj.bad = 1;        /* some write of some piece failed: the visitor said false */
+  if (nondet_bool()) { ofs_obj.bad = 1; ofs_obj.badbit = 1; }       /* some write of some piece failed: the visitor said false */
   return !ofs_obj.bad;
 }
 #include "extract_files_visitor.inc"
@@ -47,7 +50,7 @@ __CPROVER_assigns(ofs_obj, g_diag)
 __CPROVER_ensures(__CPROVER_return_value ==> (ofs_obj.is_open && ofs_obj.closed && !ofs_obj.bad))
 __CPROVER_ensures((!__CPROVER_return_value && !ofs_obj.is_open) ==> g_diag > __CPROVER_old(g_diag));
 
-void h_visitor(void) { size_t n = nondet_size_t(); __CPROVER_assume(n <= 256); ofs_obj.closed = 0; ofs_obj.bad = nondet_bool(); g_diag = 0; extract_files_visitor(h_chunk, h_chunk + n); }
+void h_visitor(void) { size_t n = nondet_size_t(); __CPROVER_assume(n <= 256); ofs_obj.closed = 0; ofs_obj.bad = nondet_bool(); ofs_obj.badbit = ofs_obj.bad && nondet_bool(); g_diag = 0; extract_files_visitor(h_chunk, h_chunk + n); }
 void h_write_body(void)
 {
   g_diag = 0;
